@@ -9,7 +9,9 @@ Three things happen on every run, for TCP and for WebSocket server sessions:
            by the handlers), handshake completion, close and a stuck reader must agree;
   oracle : implementation only - (a) every chunking of a stream must give exactly what the
            single-arrival run of that stream gave (handler calls, events, bytes written);
-           (b) a stream built from known messages must deliver exactly these messages, in order."""
+           (b) a stream built from known messages must deliver exactly these messages, in order;
+           (c) every WebSocket frame the library writes (answers of 124..128 and 65534..65537 bytes
+           included) is one well-formed frame for the peer's reader, holding a CoAP message."""
 import itertools
 import re
 
@@ -262,14 +264,18 @@ def build_ws_cases(run, r):
         cuts, seen = [], set()
         for _ in range(r.choice([3, 4, 5])):
             tok, kind = gen_stream.random_cuts(r, len(stream), meta["hot"])
-            opt = r.randrange(2)
+            opt = r.randrange(4)       # bit 0: another connection's traffic, bit 1: own transmission
             if (tok, opt) not in seen and tok != "-":
                 seen.add((tok, opt))
                 cuts.append((tok, kind, opt))
         if r.random() < 0.3:
             k = r.choice([13, 14, 15, 28])
-            cuts.append(("x%d" % k, "fixed", r.randrange(2)))
+            cuts.append(("x%d" % k, "fixed", r.randrange(4)))
         cs.add(0, stream, cuts, meta)
+    # 3. sizes of the frames the library writes: 7-bit / 16-bit / 64-bit length boundaries
+    for t in gen_stream.WSIZE_TARGETS:
+        stream, meta = gen_stream.gen_ws_wsize_stream(r, False, t)
+        cs.add(0, stream, [("%d" % (meta["hslen"] + 9), "aimed", 0), ("x14", "fixed", 2)], meta)
     return cs
 
 
@@ -295,10 +301,13 @@ def build_wsc_cases(run, r):
             tok, kind = gen_stream.random_cuts(r, len(stream), meta["hot"])
             if tok not in seen and tok != "-":
                 seen.add(tok)
-                cuts.append((tok, kind, 0))
+                cuts.append((tok, kind, 2 * r.randrange(2)))
         if r.random() < 0.3:
-            cuts.append(("x%d" % r.choice([5, 13, 14, 15]), "fixed", 0))
+            cuts.append(("x%d" % r.choice([5, 13, 14, 15]), "fixed", 2 * r.randrange(2)))
         cs.add(0, stream, cuts, meta)
+    for t in gen_stream.WSIZE_TARGETS:
+        stream, meta = gen_stream.gen_ws_wsize_stream(r, True, t)
+        cs.add(0, stream, [("%d" % (meta["hslen"] + 5), "aimed", 0), ("x14", "fixed", 2)], meta)
     return cs
 
 
@@ -410,6 +419,31 @@ def evaluate(run, proto, cs, model, drv, stats, drv_san=None):
         return (oracle_view(outs[0]) != oracle_view(outs[1]) and "HANG" not in outs and "<not run>" not in outs
                 and not any(o.startswith("CRASH") for o in outs))
 
+    if proto != "tcp":
+        # implementation-only oracle (c): every frame the library WROTE is one well-formed WebSocket
+        # frame for the peer's reader (decoded by the specification automaton) holding a CoAP message
+        role = "c" if proto == "wsc" else "s"
+        wfs = {}
+        for li, co in enumerate(oc):
+            m = re.search(r" wf=(\S+)", co)
+            if m and m.group(1) != "-" and li not in skip:
+                wfs.setdefault(m.group(1), li)
+        keys = list(wfs)
+        dec = stream_util.run_cases(model, ["wsdec %s %s" % (role, k) for k in keys], batch=50)
+        nbadw = 0
+        for k, d in zip(keys, dec):
+            run.hist(proto + "_written_frames", "checked")
+            if "BAD" in d or d.startswith("ERROR") or d in ("HANG", "<not run>"):
+                nbadw += 1
+                stats["written_bad"] = stats.get("written_bad", 0) + 1
+                if nbadw <= 2:
+                    li = wfs[k]
+                    sizes = [len(w) // 2 for w in k.split(",")]
+                    run.violation("%s session writes an ill-formed WebSocket frame (write sizes %s, decoded by the "
+                                  "peer's reader as %s)" % (proto.upper(), sizes[:8], d[:120]),
+                                  "case: %s\nimplementation: %s\nframes written, decoded with the proved frame automaton: %s\n"
+                                  % (lines[li], oc[li][:3000], d), tag="%swritten%d" % (proto, nbadw))
+        stats["written_checked"] = stats.get("written_checked", 0) + len(keys)
     ref = {}
     for li, (gi, ci) in enumerate(idx):
         par, stream, cuts, meta = cs.groups[gi]
@@ -457,7 +491,8 @@ def evaluate(run, proto, cs, model, drv, stats, drv_san=None):
                 what = ("%s session delivers different messages for two segmentations of one stream "
                         "(%d bytes, arrivals %s%s vs one arrival): %s  vs  %s"
                         % (proto.upper(), len(stream), stok,
-                           " with traffic of another connection in between" if proto != "tcp" and cpar & 1 else "",
+                           (" with traffic of another connection in between" if proto != "tcp" and cpar & 1 else "") +
+                           (" with a transmission of the session itself in between" if proto != "tcp" and cpar & 2 else ""),
                            so1[0][:4] if so1 else outs[1][:80], so0[0][:4] if so0 else outs[0][:80]))
                 run.violation(what,
                               "case: %s %d %s %s\nreference: %s %d %s -\n"
@@ -587,6 +622,8 @@ def main(run):
     run.cov["tie_compared"] = stats["tie"]
     run.cov["tie_disagreements"] = stats["tie_bad"]
     run.cov["tie_not_predicted"] = stats["tie_skipped"]
+    run.cov["written_frame_sets_decoded"] = stats.get("written_checked", 0)
+    run.cov["written_frames_ill_formed"] = stats.get("written_bad", 0)
     run.cov["sanitizer_cases"] = stats.get("san_cases", 0)
     run.cov["sanitizer_differences"] = stats.get("san_diffs", 0)
     run.cov["corpus_cases"] = ncorpus
